@@ -248,17 +248,8 @@ Proof.
   - apply forallb_none_le. exact Hle.
 Qed.
 
-Lemma del_attrs_le vals : vals_le (fst (del_attrs vals)) vals.
-Proof.
-  induction vals as [|[v|] vals IH]; cbn; [constructor| |apply vals_le_refl].
-  destruct (del_attrs vals) as [r ok]. cbn in *. constructor; auto.
-Qed.
-Lemma del_attrs_ok vals : snd (del_attrs vals) = true ->
-  forallb (fun v : option val => match v with None => true | Some _ => false end) (fst (del_attrs vals)) = true.
-Proof.
-  induction vals as [|[v|] vals IH]; cbn; auto; [|discriminate].
-  destruct (del_attrs vals) as [r ok]. cbn in *. exact IH.
-Qed.
+Lemma vals_le_none (l : list (option val)) : vals_le (map (fun _ => None) l) l.
+Proof. induction l; cbn; constructor; auto. Qed.
 
 (* ------------------------------------------------------------------ instance updates *)
 Lemma alive_with_heap s h X o : alive (with_heap s Par h) Par X o = alive s Par X o.
@@ -613,8 +604,8 @@ Lemma jt_so_expire X t0 o : keeps (JT X t0) (so_expire cfg Par o).
 Proof.
   apply keeps_of_snd. intros s [J Ht]. rewrite so_expire_eq. cbv zeta.
   destruct (i_expired (get_inst s Par o)) eqn:Ee; [split; assumption|].
-  destruct (del_attrs (i_vals (get_inst s Par o))) as [vals' ok] eqn:Ed.
-  pose proof (del_attrs_le (i_vals (get_inst s Par o))) as Hle. rewrite Ed in Hle. cbn [fst] in Hle.
+  set (vals' := map (fun _ : option val => @None val) (i_vals (get_inst s Par o))).
+  pose proof (vals_le_none (i_vals (get_inst s Par o))) as Hle. fold vals' in Hle.
   (* first the attributes go *)
   pose proof (jx_upd X o (fun i => i_with_vals i vals') (kid_vals vals') s) as H1.
   assert (Hpre1 : JX X s /\
@@ -625,10 +616,9 @@ Proof.
     intros Ha Hob. eapply shows_le; [| |apply J; [exact Ha|exact Hob]]; [reflexivity|exact Hle]. }
   specialize (H1 Hpre1). unfold upd_inst, modify in H1. cbv beta iota in H1.
   set (s1 := with_heap s Par (set_nth o (i_with_vals (get_inst s Par o) vals') (heap (cn s Par)))) in *.
-  destruct ok; [|cbn; split; [exact H1|exact Ht]].
   (* then the flag is set: nothing is cached any more *)
-  assert (Hnv : forallb (fun v : option val => match v with None => true | Some _ => false end) vals' = true).
-  { pose proof (del_attrs_ok (i_vals (get_inst s Par o))) as H. rewrite Ed in H. apply H. reflexivity. }
+  assert (Hnv : forallb (fun v : option val => match v with None => true | Some _ => false end) vals' = true)
+    by (apply forallb_none_map).
   pose proof (jx_upd X o (fun i => i_with_expired i true) (kid_expired true) s1) as H2.
   assert (G1 : get_inst s1 Par o = if Nat.ltb o (length (heap (cn s Par))) then i_with_vals (get_inst s Par o) vals' else get_inst s Par o).
   { unfold s1. pose proof (get_inst_upd s o (fun i => i_with_vals i vals') o) as G. cbv beta in G. rewrite G, Nat.eqb_refl. reflexivity. }
@@ -1047,16 +1037,15 @@ Lemma exp_so_expire o s : exp_ok s -> exp_ok (snd (so_expire cfg Par o s)).
 Proof.
   intros He. rewrite so_expire_eq. cbv zeta.
   destruct (i_expired (get_inst s Par o)) eqn:Ee; [exact He|].
-  destruct (del_attrs (i_vals (get_inst s Par o))) as [vals' ok] eqn:Ed.
+  set (vals' := map (fun _ : option val => @None val) (i_vals (get_inst s Par o))).
   set (s1 := with_heap s Par (set_nth o (i_with_vals (get_inst s Par o) vals') (heap (cn s Par)))).
   assert (G1 : forall o', get_inst s1 Par o' = if Nat.eqb o' o && Nat.ltb o (length (heap (cn s Par))) then i_with_vals (get_inst s Par o) vals' else get_inst s Par o').
   { intros o'. unfold s1. pose proof (get_inst_upd s o (fun i => i_with_vals i vals') o') as G. cbv beta in G. exact G. }
   assert (E1 : exp_ok s1).
   { intros o'. rewrite G1. destruct (Nat.eqb o' o && Nat.ltb o (length (heap (cn s Par)))); [|apply He].
     cbn [i_expired i_with_vals]. rewrite Ee. discriminate. }
-  destruct ok; [|exact E1].
-  assert (Hnv : forallb (fun v : option val => match v with None => true | Some _ => false end) vals' = true).
-  { pose proof (del_attrs_ok (i_vals (get_inst s Par o))) as H. rewrite Ed in H. apply H. reflexivity. }
+  assert (Hnv : forallb (fun v : option val => match v with None => true | Some _ => false end) vals' = true)
+    by (apply forallb_none_map).
   set (s2 := with_heap s1 Par (set_nth o (i_with_expired (get_inst s1 Par o) true) (heap (cn s1 Par)))).
   assert (E2 : exp_ok s2).
   { intros o'. unfold s2. pose proof (get_inst_upd s1 o (fun i => i_with_expired i true) o') as G. cbv beta in G. rewrite G.
